@@ -63,18 +63,39 @@ func runC17(r *vhlib.Run) {
 		cfg  xwCfg
 		size int
 		name string
+		idle bool // data chunks separated by runs of empty FlushFull chunks
 	}
 	cfgs := []scfg{
-		{xwCfg{Level: 6, ChunkSize: 5, Index: 3}, 900, "180chunks-60indexes"},
-		{xwCfg{Level: -1, ChunkSize: 16, Index: -1}, 800, "50chunks-1index"},
-		{xwCfg{Level: 1, ChunkSize: 7, Index: 1}, 210, "30chunks-chain"},
+		{xwCfg{Level: 6, ChunkSize: 5, Index: 3}, 900, "180chunks-60indexes", false},
+		{xwCfg{Level: -1, ChunkSize: 16, Index: -1}, 800, "50chunks-1index", false},
+		{xwCfg{Level: 1, ChunkSize: 7, Index: 1}, 210, "30chunks-chain", false},
 	}
+	cfgs = append(cfgs,
+		scfg{xwCfg{Level: 6, ChunkSize: 64, Index: -1}, 400, "idle-flush-runs-1index", true},
+		scfg{xwCfg{Level: 6, ChunkSize: 32, Index: 16}, 400, "idle-flush-runs-index16", true})
 	if !r.Quick() {
-		cfgs = append(cfgs, scfg{xwCfg{Level: 6, ChunkSize: 64, Index: 8}, 40000, "625chunks"})
+		cfgs = append(cfgs, scfg{xwCfg{Level: 6, ChunkSize: 64, Index: 8}, 40000, "625chunks", false})
 	}
 	for _, sc := range cfgs {
 		data := vhlib.RandBytes(rng, sc.size)
 		ops := []xwOp{{Kind: 'w', Data: data[:sc.size/3]}, {Kind: 'f', Mode: 1}, {Kind: 'f', Mode: 1}, {Kind: 'w', Data: data[sc.size/3:]}, {Kind: 'c'}}
+		var edges []int // uncompressed offsets where a flush happened
+		if sc.idle {
+			ops = nil
+			for off := 0; off < sc.size; {
+				n := 20 + rng.Intn(60)
+				if off+n > sc.size {
+					n = sc.size - off
+				}
+				ops = append(ops, xwOp{Kind: 'w', Data: data[off : off+n]})
+				off += n
+				edges = append(edges, off)
+				for k := []int{0, 1, 2, 5, 40, 120}[rng.Intn(6)]; k >= 0; k-- {
+					ops = append(ops, xwOp{Kind: 'f', Mode: 1})
+				}
+			}
+			ops = append(ops, xwOp{Kind: 'c'})
+		}
 		sink, plain, ok := makeXFStream(sc.cfg, ops)
 		if !ok {
 			continue
@@ -119,6 +140,12 @@ func runC17(r *vhlib.Run) {
 			n := []int{1, 3, int(sc.cfg.ChunkSize), int(sc.cfg.ChunkSize) * 3, 50}[rng.Intn(5)]
 			if q%7 == 0 && q > 0 {
 				p = 0 // backward / repeated
+			}
+			if len(edges) > 0 && q%2 == 1 {
+				p = edges[rng.Intn(len(edges))] - 1 - rng.Intn(20) + rng.Intn(3)
+				if p < 0 {
+					p = 0
+				}
 			}
 			before := len(cs.Ranges)
 			bytesBefore := cs.Bytes
